@@ -20,8 +20,8 @@ from .. import wire
 from ..model import AnalysisError, CArray, CScalar, CStructRef, Unknown, dotted, src
 from . import c01
 
-TECHNIQUE = "AST dataflow + ctypes layout model compared with a frozen reference wire table (static analysis)"
-ENGINES = ["model", "wire", "instrs"]
+TECHNIQUE = "bytes produced by every class's executed serialize (checker's AST interpreter over a ctypes layout model) compared with a frozen reference wire table; constant and import rules (static analysis; abstract execution)"
+ENGINES = ["model", "wire", "instrs", "cmodel", "codec"]
 EXPLANATION = (
     "For every flavour and mnemonic the byte/bit position, width and signedness of every operand leaf is computed from "
     "the serialize() field map and the modelled ctypes layout of encoding.py, in `operands` order, and compared with "
